@@ -1,5 +1,9 @@
 #!/bin/sh
-# build Coq targets (relative to coq/, e.g. C05/Proofs.vo) under the shared build lock; no target = everything
+# build Coq targets (relative to coq/, e.g. C05/Proofs.vo). The project files are regenerated under a short
+# global lock; the build takes a lock per property directory only (first path component of the first target).
 cd "$(dirname "$0")/.."
 mkdir -p .build
-exec flock .build/coqmake.lock sh -c './tools/mkproject.sh && timeout 3000 make -C coq -j8 "$@"' coqmake "$@"
+[ $# -ge 1 ] || { echo "usage: coqmake.sh <Cxx/File.vo> ..."; exit 2; }
+flock .build/coqproject.lock ./tools/mkproject.sh || exit 1
+d=$(echo "$1" | cut -d/ -f1)
+exec flock ".build/coqmake-$d.lock" timeout 3000 make -C coq -j8 "$@"
